@@ -2,7 +2,9 @@
    (Channel::listen_for_publisher_confirms / listen_for_returns,
    Connection::listen_for_connection_blocked); the broker pushes a long run of confirms /
    returns / blocked notices before the client reads anything; then the client drains its
-   receiver.  case = (kind 0 confirms / 1 returns / 2 blocked, frames pushed in order,
+   receiver.  Kinds 3 (confirms) and 4 (returns): a few notices that the server sends between
+   the client's Channel.Close and its own CloseOk - the listener registered before must still
+   get them.  case = (kind 0 confirms / 1 returns / 2 blocked / 3 / 4, frames pushed in order,
    items received in order, the connection was still fine afterwards) *)
 From Amq Require Export Check.Core.
 
@@ -24,7 +26,7 @@ Definition model_out (c : case) : list qitem :=
     else
       let w1 := wrun w0 [OClAllocReq None; OEvent EvAlloc; OClRecv 1] in
       let q := c_nextq (w_core w1) in
-      (wrun w1 [OClNewQ; OClSend 1 (if kind =? 0 then MsgSetConfirm (Some q) else MsgSetReturn (Some q));
+      (wrun w1 [OClNewQ; OClSend 1 (if (kind =? 0) || (kind =? 3) then MsgSetConfirm (Some q) else MsgSetReturn (Some q));
                 OEvent (EvChan 1)], q) in
   let w3 := wrun w2 (map OFrame frames) in
   match alookup q (c_qs (w_core w3)) with
